@@ -83,10 +83,17 @@ macro_rules! chain_harnesses {
                         let inside = q >= e.cum as u128 && q < e.cum as u128 + e.prob.get() as u128;
                         match r {
                             Ok(sym) => {
-                                assert!((sym == e.sym) == inside, "C14: decoded symbol is not the model's symbol for the next P-bit chunk");
-                                assert!(s1.ch as u128 == ch1 && s1.comp.n + used == s0.comp.n, "C14: compressed side after decode is not 'old minus one chunk'");
-                                assert!(inv(&s1), "C10/C20: chain coder head invariant lost after decode");
-                                if inside {
+                                // independent assertion groups (kx::group): 0 locality, 1 invariant / totality, 2 remainders side
+                                let grp = group(3);
+                                if grp == 0 {
+                                    assert!((sym == e.sym) == inside, "C14: decoded symbol is not the model's symbol for the next P-bit chunk");
+                                    assert!(s1.ch as u128 == ch1 && s1.comp.n + used == s0.comp.n, "C14: compressed side after decode is not 'old minus one chunk'");
+                                }
+                                if grp == 1 {
+                                    assert!(sym == e.sym || sym == !e.sym, "C10: chain decoder returned a symbol outside the model");
+                                    assert!(inv(&s1), "C10/C20: chain coder head invariant lost after decode");
+                                }
+                                if inside && grp == 2 {
                                     let t = s0.r as u128 * e.prob.get() as u128 + (q - e.cum as u128);
                                     if t >= (1u128 << (SB - P as u32)) {
                                         assert!(s1.rem.n == s0.rem.n + 1 && s1.rem.buf[s0.rem.n] as u128 == (t & ((1u128 << WB) - 1)) && s1.r as u128 == t >> WB, "C13: remainders flush differs from spec");
@@ -120,12 +127,12 @@ macro_rules! chain_harnesses {
                     Err(CoderError::Frontend(_)) => assert!(!ok, "C13: chain coder refused data that can fill its remainders head"),
                     Err(_) => assert!(false, "C13: undocumented error"),
                     Ok(c) => {
-                        assert!(ok, "C13: chain coder accepted data that cannot fill its remainders head");
                         let s = obs(&c);
+                        if group(2) == 1 { assert!(inv(&s), "C20/C10: fresh chain coder violates the head invariant (the next decode may overflow)"); return; }
+                        assert!(ok, "C13: chain coder accepted data that cannot fill its remainders head");
                         assert!(s.ch == 1, "C13/C14: a fresh chain coder must start with an empty compressed head");
                         assert!(s.r as u128 == head && s.comp.n == n, "C13/C14: remainders head must take the fewest words that reach its lower bound");
                         assert!(s.rem.n == 0, "C13: a fresh chain coder must start with empty remainders");
-                        assert!(inv(&s), "C20/C10: fresh chain coder violates the head invariant (the next decode may overflow)");
                     }
                 }
             }
